@@ -251,4 +251,90 @@ def run(tier):
                                      "handshake never completes" % (ph.relfile, ln), file=ph.relfile, line=ln)
                     res.instance("C16.R4", "parseSSLHandshake:%s hsState = HELLO_VERIFY_REQUEST under haveCookie == 0" % ln, ok, finding=f_)
     res.floor("C16.R4", 1)
+    # ------------------------------------------------------------------ R5
+    res.rule("C16.R5", "a retransmitted DTLS ClientHello keeps its random: the PRNG fills clientRandom only on paths that exclude "
+                       "`DTLS and ssl->retransmit == 1` (and `DTLS and haveCookie`)")
+    ch = prog.fn("matrixSslEncodeClientHello")
+
+    def fills_random(x):
+        return any(m.get("k") == "call" and m.get("fn") == "psGetPrngLocked" and m.get("a") and
+                   any(q.get("k") == "mem" and q.get("f") == "clientRandom" for q in walk(m["a"][0])) for m in walk(x))
+    tvars = {}
+    seen5 = set()
+    stack5 = [(ch.entry, (), None, None, None, [])]     # block, known constants of locals, dtls, retransmit, haveCookie, path
+    bad5 = None
+    n5 = 0
+    while stack5 and bad5 is None:
+        bid, consts, dtls, retr, cookie, path = stack5.pop()
+        key = (bid, consts, dtls, retr, cookie)
+        if key in seen5:
+            continue
+        seen5.add(key)
+        b = ch.bmap[bid]
+        cd = dict(consts)
+        stop = False
+        for i, ln, x in cu.block_exprs(b):
+            if i == "c":
+                break
+            for m in walk(x):
+                if m.get("k") == "bin" and m["op"] == "=" and (strip(m["l"]) or {}).get("k") == "var" and "id" in strip(m["l"]):
+                    r_ = strip(m["r"])
+                    if r_ is not None and r_.get("k") == "int":
+                        cd[strip(m["l"])["id"]] = r_["v"]
+                    else:
+                        cd.pop(strip(m["l"])["id"], None)
+            if fills_random(x):
+                n5 += 1
+                if dtls is not False and (retr is not False or cookie is not False):
+                    bad5 = (ln, path, dtls, retr, cookie)
+                stop = True
+                break
+            if x.get("k") == "ret":
+                stop = True
+                break
+        if stop or bad5:
+            continue
+        t = b.get("term")
+        for k, sc in enumerate(b["succ"]):
+            if sc.get("b") is None:
+                continue
+            d2, r2, c2 = dtls, retr, cookie
+            skip = False
+            if t is not None and "c" in t and len(b["succ"]) == 2:
+                if fills_random(t["c"]):
+                    n5 += 1
+                    if dtls is not False and (retr is not False or cookie is not False):
+                        bad5 = (t["ln"], path, dtls, retr, cookie)
+                        break
+                for (txt, tr, nd) in cu._cond_atoms(t["c"], k == 0):
+                    nd0 = strip(nd)
+                    if is_dtls_cond(nd0):
+                        if d2 is not None and d2 != tr:
+                            skip = True
+                        d2 = tr
+                    if txt == "(ssl->retransmit == 1)":
+                        if r2 is not None and r2 != tr:
+                            skip = True
+                        r2 = tr
+                    if txt == "ssl->haveCookie":
+                        if c2 is not None and c2 != tr:
+                            skip = True
+                        c2 = tr
+                    if nd0 is not None and nd0.get("k") == "var" and nd0.get("id") in cd:
+                        if bool(cd[nd0["id"]]) != tr:
+                            skip = True
+            if skip:
+                continue
+            stack5.append((sc["b"], tuple(sorted(cd.items())), d2, r2, c2, (path + [t.get("ln") if t else None])[-6:]))
+    f_ = None
+    if bad5 is not None:
+        f_ = Finding(PROP, "C16.R5", ch.name, "ClientHello random redrawn on a DTLS retransmission",
+                     "%s:%s matrixSslEncodeClientHello(): psGetPrngLocked fills ssl->sec.clientRandom on a path (via lines %s) that does not "
+                     "exclude DTLS with %s: a timeout-driven resend of the ClientHello carries a new random, the HelloVerifyRequest "
+                     "computed for the first one no longer matches, the server answers the cookie-bearing hello with a fatal alert and the "
+                     "handshake cannot complete" % (ch.relfile, bad5[0], bad5[1], "ssl->retransmit == 1" if bad5[3] is not False else "ssl->haveCookie"),
+                     file=ch.relfile, line=bad5[0])
+    res.instance("C16.R5", "matrixSslEncodeClientHello: clientRandom is drawn only for a first transmission (%d path states)" % n5, bad5 is None, finding=f_)
+    if n5 == 0:
+        raise AnalysisBroken("C16.R5: no psGetPrngLocked(clientRandom) reached in matrixSslEncodeClientHello")
     return res.finish()
